@@ -125,6 +125,10 @@ func (x *vc) resolveLocal(env *cenv, name string) (Val, bool) {
 		if _, isPhi := d.v.(*ssa.Phi); isPhi && env.hdr != nil && defBlock(d) != env.hdr && !defBlock(d).Dominates(env.hdr) {
 			continue
 		}
+		// in-body clauses (atif, atstore, atcall): only definitions that reach the point of evaluation on every path
+		if env.hdr == nil && fr.curBlock != nil && !defBlock(d).Dominates(fr.curBlock) {
+			continue
+		}
 		if env.hdr != nil && !(defBlock(d).Dominates(env.hdr)) {
 			continue
 		}
@@ -664,6 +668,11 @@ func (x *vc) evalCall(env *cenv, e *cexpr) Val {
 		return Val{T: and(not(app("fp.isNaN", v)), not(app("fp.isInfinite", v))), Typ: boolT}
 	case "floor":
 		return Val{T: app("fp.roundToIntegral RTN", x.eval(env, e.args[0]).T), Typ: types.Typ[types.Float64]}
+	case "ifloor": // the integer floor(x) of a finite float64 (unspecified for NaN / infinities)
+		// spelled as the conversion int(math.Floor(x)) so that code computing it that way matches by congruence; the
+		// conversion's meaning (exact in range, platform value outside) is the assumption made where code converts
+		x.needDecl("(declare-fun f2i (F64) Int)")
+		return Val{T: app("f2i", app("fp.roundToIntegral RTN", x.eval(env, e.args[0]).T)), Typ: intT}
 	case "trunc":
 		return Val{T: app("fp.roundToIntegral RTZ", x.eval(env, e.args[0]).T), Typ: types.Typ[types.Float64]}
 	case "real":
